@@ -45,24 +45,24 @@ class Block:
 
 
 METHODS = ["MS", "SS", "DC", "Spline", "MS_euler"]
-BASES = ["chain", "chain3", "param", "twostage", "discrete"]
+BASES = ["chain", "chain3", "param", "param_bspline", "twostage", "discrete"]
 
 # fault -> (bases it applies to, positions, can be injected after a first transcription)
 FAULTS = {
     "missing_der": (["chain", "chain3", "param", "twostage"], [0, 1, 2], False),
     "missing_next": (["discrete"], [0, 1], False),
-    "missing_value_global": (["param", "twostage"], [0], False),
-    "missing_value_interval": (["param"], [0], False),
+    "missing_value_global": (["param", "param_bspline", "twostage"], [0, 1], False),
+    "missing_value_interval": (["param", "param_bspline"], [0], False),
     "missing_method": (["chain", "twostage"], [0, 1], False),
     "missing_solver": (["chain", "param", "twostage"], [0], False),
     "objective_signal": (["chain", "twostage"], [0, 1], True),
     "objective_nonscalar": (["chain", "twostage"], [0, 1], True),
-    "set_value_state": (["param"], [0], True),
-    "set_value_control": (["param"], [0], True),
-    "set_value_variable": (["param"], [0], True),
-    "set_value_unknown": (["param"], [0], True),
-    "set_initial_param": (["param"], [0, 1], True),
-    "set_initial_unknown": (["param"], [0], True),
+    "set_value_state": (["param", "param_bspline"], [0], True),
+    "set_value_control": (["param", "param_bspline"], [0], True),
+    "set_value_variable": (["param", "param_bspline"], [0], True),
+    "set_value_unknown": (["param", "param_bspline"], [0], True),
+    "set_initial_param": (["param", "param_bspline"], [0, 1, 2], True),
+    "set_initial_unknown": (["param", "param_bspline"], [0], True),
     "grid_subject_to": (["chain"], [0], True),
     "grid_sample": (["chain"], [0], True),
     "grid_sol_sample": (["chain"], [0], False),
@@ -111,6 +111,9 @@ def fill_stage(st, base, fault, pos, late, with_pc=True):
     nst = 3 if base == "chain3" else 2
     S["x"] = [st.state() for _ in range(nst)]
     S["u"] = st.control()
+    if base == "param_bspline":
+        base = "param"
+        S["pb"] = st.parameter(grid="bspline", order=1)
     if base == "param":
         S["pg"] = st.parameter()
         S["pc"] = st.parameter(grid="control") if with_pc else st.parameter()
@@ -143,8 +146,12 @@ def fill_stage(st, base, fault, pos, late, with_pc=True):
         z = st.algebraic()
         st.add_alg(z - S["x"][0])
         S["z"] = z
+    if "pb" in S:
+        st.add_objective(0.01 * st.integral((S["x"][0] - S["pb"]) ** 2))
+        if not (F("missing_value_global") and pos == 1):
+            st.set_value(S["pb"], np.linspace(0, 1, 4))
     if base == "param":
-        if not F("missing_value_global"):
+        if not (F("missing_value_global") and pos == 0):
             st.set_value(S["pg"], 0.4)
         if not F("missing_value_interval"):
             st.set_value(S["pc"], 0.3)
@@ -174,7 +181,7 @@ def late_fault(ocp, st, S, fault, pos, sol=None):
     elif fault == "set_value_unknown":
         st.set_value(ca.MX.sym("nobody"), 1.0)
     elif fault == "set_initial_param":
-        st.set_initial(S["pg"] if pos == 0 else S["pc"], 1.0)
+        st.set_initial(S["pg"] if pos == 0 else (S["pc"] if pos == 1 else S["pb"]), 1.0)
     elif fault == "set_initial_unknown":
         st.set_initial(ca.MX.sym("nobody"), 1.0)
     elif fault == "grid_subject_to":
@@ -258,7 +265,7 @@ def applicable(base, method, fault):
         return False
     if method == "Spline" and not have_networkx():
         return False
-    if method == "Spline" and base == "param":
+    if method == "Spline" and base in ("param", "param_bspline"):
         return False     # a global variable inside a path constraint raises under SplineMethod: every case would be vacuous
     return True
 
@@ -272,6 +279,10 @@ def cases(tier):
                     continue
                 for pos in positions:
                     if fault == "missing_der" and pos == 2 and base != "chain3":
+                        continue
+                    if fault in ("set_initial_param",) and pos == 2 and base != "param_bspline":
+                        continue
+                    if fault == "missing_value_global" and pos == 1 and base != "param_bspline":
                         continue
                     for after in ((False, True) if can_late else (False,)):
                         out.append(dict(base=base, method=method, fault=fault, pos=pos, after=after))
